@@ -178,16 +178,17 @@ def ipcaCentred (st : PState) (B : Data) : PState :=
 def ipcaUncentred (st : PState) (B : Data) : PState :=
   ⟨st.n + B.length, zeroVec, fun i j => st.scat i j + gram B i j⟩
 
-/-- what the property requires of `PCAVectorModel.increment`: the branch follows the model's
-`centred` flag (this is also the behaviour of the repaired code) -/
+/-- `PCAVectorModel.increment` (calls `ipca(…, centre=self.centred)`: tied to the live call site by
+`GenProps.C11.ipcaCall_ok`) and `ipca` with `centre` given: the branch follows the `centred` flag -/
 def ipcaStepSpec (centred : Bool) (st : PState) (B : Data) : PState :=
   if centred then ipcaCentred st B else ipcaUncentred st B
 
 /-- `np.all(m_a == 0)` over the `d` features -/
 def allZero (d : Nat) (m : Vec) : Bool := (List.range d).all fun i => m i == 0
 
-/-- as coded before the repair: `increment` hands `self._mean` to `ipca`, which takes the centred
-branch iff `m_a is not None and not np.all(m_a == 0)` — the `centred` flag is never consulted -/
+/-- `ipca(…, centre=None)` as coded (the public function called directly; also what `increment` did before the
+repair `f52ccab`, which now passes `centre=self.centred`): the centred branch is taken iff
+`m_a is not None and not np.all(m_a == 0)` — inferred from the mean, no flag is consulted -/
 def ipcaStepCoded (d : Nat) (st : PState) (B : Data) : PState :=
   if allZero d st.mean then ipcaUncentred st B else ipcaCentred st B
 
@@ -240,5 +241,159 @@ def invExact (p : Nat) (m : Mat) : Option (List (List Rat)) :=
   | some rows =>
     let inv := rows.map (·.drop p)
     if matMulRows a inv p == identityRows p then some inv else none
+
+/-! ### sparse (BSR) storage as coded, and the dense one side by side
+
+`_create_sparse_precision` / `_increment_sparse_precision` emit four `(row, column, block)` triplets per edge and
+hand them to `scipy.sparse.bsr_matrix`; entries with the same block coordinates are *summed* when the matrix is
+used (`toarray`, `dot`).  The dense routines `+=` the two diagonal blocks but *assign* (`=`) the two off-diagonal
+ones (`storeEdge` above).  On graphs where two edges join the same pair of vertices (a `DirectedGraph` holding
+`i → j` and `j → i`) the two storages therefore hold different matrices; both are modelled as coded. -/
+
+/-- one edge of the sparse routines: four triplets, duplicates summed -/
+def storeEdgeSparse (mode : Mode) (k : Nat) (P : Mat) (v1 v2 : Nat) (inv : Mat) : Mat :=
+  match mode with
+  | .concatenation =>
+    let P := addBlock P (v1 * k) (v1 * k) k inv 0 0
+    let P := addBlock P (v2 * k) (v2 * k) k inv k k
+    let P := addBlock P (v1 * k) (v2 * k) k inv 0 k
+    addBlock P (v2 * k) (v1 * k) k inv k 0
+  | .subtraction =>
+    let P := addBlock P (v1 * k) (v1 * k) k inv 0 0
+    let P := addBlock P (v2 * k) (v2 * k) k inv 0 0
+    let P := addBlock P (v1 * k) (v2 * k) k (negM inv) 0 0
+    addBlock P (v2 * k) (v1 * k) k (negM inv) 0 0
+
+/-- dense meaning of the BSR matrix built from the inverted blocks `blk e` -/
+def precisionOfSparse (g : GSpec) (blk : Nat → Mat) : Mat :=
+  if g.diagonal then
+    (List.range g.nv).foldl (fun P v => addBlock P (v * g.k) (v * g.k) g.k (blk v) 0 0) (fun _ _ => 0)
+  else
+    (List.range g.edges.length).foldl (fun P e =>
+      let (v1, v2) := g.edges.getD e (0, 0)
+      storeEdgeSparse g.mode g.k P v1 v2 (blk e)) (fun _ _ => 0)
+
+/-- the stored precision for either value of the `sparse` flag -/
+def precisionStored (sparse : Bool) (g : GSpec) (inv : Mat → Mat) (cov : Nat → Mat) : Mat :=
+  if sparse then precisionOfSparse g (fun e => inv (cov e)) else precision g inv cov
+
+/-! ### object level: `GMRFModel` / `PCAModel` on `PointCloud` samples
+
+`as_matrix(samples)` stacks `sample.as_vector()`; for a `PointCloud` with `k` coordinates per point that is
+`points.ravel()`; `mean()` is `template.from_vector(mean_vector)`, i.e. `reshape(-1, k)`. -/
+
+/-- `points[p, c]` -/
+abbrev Cloud := Nat → Nat → Rat
+/-- `PointCloud.as_vector` = `points.ravel()` -/
+def asVector (k : Nat) (pc : Cloud) : Vec := fun i => pc (i / k) (i % k)
+/-- `PointCloud.from_vector` = `v.reshape(-1, k)` -/
+def fromVector (k : Nat) (v : Vec) : Cloud := fun p c => v (p * k + c)
+/-- `menpo.math.as_matrix` -/
+def asMatrix (k : Nat) (samples : List Cloud) : Data := samples.map (asVector k)
+
+/-- `GMRFModel.__init__(samples, graph, incremental=True)` -/
+def gmrfObjInit (b : Bool) (g : GSpec) (samples : List Cloud) : GState :=
+  gmrfInit b g.feat (asMatrix g.k samples)
+/-- `GMRFModel.increment(samples)` -/
+def gmrfObjInc (b : Bool) (g : GSpec) (st : GState) (samples : List Cloud) : GState :=
+  gmrfInc b g.feat st (asMatrix g.k samples)
+def gmrfObjRun (b : Bool) (g : GSpec) (S0 : List Cloud) (chunks : List (List Cloud)) : GState :=
+  chunks.foldl (gmrfObjInc b g) (gmrfObjInit b g S0)
+/-- `GMRFModel.mean()` -/
+def gmrfObjMean (g : GSpec) (st : GState) : Cloud := fromVector g.k st.mean
+
+/-- `PCAModel.__init__` / `PCAModel.increment` (specified behaviour, branch by the model's `centred` flag) -/
+def pcaObjRun (k : Nat) (centred : Bool) (S0 : List Cloud) (chunks : List (List Cloud)) : PState :=
+  chunks.foldl (fun st c => ipcaStepSpec centred st (asMatrix k c)) (pcaBatch centred (asMatrix k S0))
+
+/-! ### forgetting factor `f` (`ipca(…, f=…)`, `increment(…, forgetting_factor=…)`), as coded
+
+The model stores eigenvalues `l` (covariance scale) and the integer sample count.  `ipca` rebuilds the singular
+values `s_a = √((n_a − 1) l_a)` from the *integer* count, then replaces `n_a` by `f·n_a` for the mean, the
+pseudo-sample and the normaliser, scales `S_a` by `f` inside `R` (so the old scatter enters with `f²`), and
+returns `l = s̃² / (f n_a + n_b − 1)`; `increment` adds the integer `n_b` to `n_samples`. -/
+
+/-- state in covariance scale: `cov = Uᵀ diag(eigenvalues) U` -/
+structure FState where
+  n : Nat
+  mean : Vec
+  cov : Mat
+
+def PState.toF (st : PState) : FState := ⟨st.n, st.mean, fun i j => st.scat i j / ((st.n : Rat) - 1)⟩
+
+def ipcaForget (centred : Bool) (f : Rat) (st : FState) (B : Data) : FState :=
+  let sA : Mat := fun i j => ((st.n : Rat) - 1) * st.cov i j
+  let na : Rat := f * (st.n : Rat)
+  let nb : Rat := B.length
+  let n := na + nb
+  if centred then
+    let mb := mean B
+    ⟨st.n + B.length, fun i => na / n * st.mean i + nb / n * mb i,
+     fun i j => (f * f * sA i j + gram (centre B mb) i j
+                  + na * nb / n * ((mb i - st.mean i) * (mb j - st.mean j))) / (n - 1)⟩
+  else
+    ⟨st.n + B.length, zeroVec, fun i j => (f * f * sA i j + gram B i j) / (n - 1)⟩
+
+/-- an initial batch followed by increments, each with its own forgetting factor -/
+def pcaRunForget (centred : Bool) (X0 : Data) (steps : List (Rat × Data)) : FState :=
+  steps.foldl (fun st s => ipcaForget centred s.1 st s.2) (pcaBatch centred X0).toF
+
+/-- weighted statistics: weight `f` on the old samples `X`, weight 1 on the new samples `B` -/
+def wmean (f : Rat) (X B : Data) : Vec := fun i =>
+  (f * sumC X i + sumC B i) / (f * (X.length : Rat) + (B.length : Rat))
+def wscatter (f : Rat) (X B : Data) : Mat := fun i j =>
+  f * gram (centre X (wmean f X B)) i j + gram (centre B (wmean f X B)) i j
+
+/-! ### `l = l[l > eps]`, `U[: len(l), :]` on lists (the SVD returns singular values in descending order) -/
+
+/-- default of `ipca`'s `eps` (tied to the live signature by `GenProps/C11.lean`) -/
+def defaultEps : Rat := 1 / 10000000000
+
+/-- `l = s̃² / (n − 1)` -/
+def ipcaEigs (nm1 : Rat) (s2 : List Rat) : List Rat := s2.map (· / nm1)
+/-- `l[l > eps]` -/
+def ipcaKeep (eps : Rat) (l : List Rat) : List Rat := l.filter (fun x => decide (eps < x))
+/-- `U[: len(l), :]` -/
+def ipcaRows {α : Type} (rows : List α) (l : List Rat) : List α := rows.take l.length
+
+/-! ### exact rank (number of non-zero eigenvalues of a symmetric positive semi-definite matrix) -/
+
+def rankAux : List Nat → List (List Rat) → Nat
+  | [], _ => 0
+  | c :: cs, rows =>
+    match rows.find? (fun r => r.getD c 0 != 0) with
+    | none => rankAux cs rows
+    | some pr =>
+      let pv := pr.getD c 0
+      let rest := (rows.filter (fun r => r.getD c 0 == 0)) ++
+        ((rows.filter (fun r => r.getD c 0 != 0)).drop 1).map (fun r => rowSub r pr (r.getD c 0 / pv))
+      rankAux cs rest + 1
+
+/-- rank of the leading `p × p` part -/
+def rankExact (p : Nat) (m : Mat) : Nat := rankAux (List.range p) (toRows p m)
+
+/-! ### tables tied to the live code by `GenProps/C11.lean` (regenerated on every run) -/
+
+/-- which module-level routine `GMRFVectorModel.__init__` / `_increment` pick: by `graph.n_edges == 0` and `sparse` -/
+def gmrfDispatchOf (edgeless sparse : Bool) : String × String :=
+  match edgeless, sparse with
+  | true, true => ("_create_sparse_diagonal_precision", "_increment_sparse_diagonal_precision")
+  | true, false => ("_create_dense_diagonal_precision", "_increment_dense_diagonal_precision")
+  | false, true => ("_create_sparse_precision", "_increment_sparse_precision")
+  | false, false => ("_create_dense_precision", "_increment_dense_precision")
+
+def expectedGmrfDispatch : List (Bool × Bool × String × String) :=
+  [true, false].flatMap fun e => [true, false].map fun s => (e, s, (gmrfDispatchOf e s).1, (gmrfDispatchOf e s).2)
+
+/-- how `PCAVectorModel.increment` calls `ipca`: positional arguments after the data matrix, then keywords (no
+`eps`: the default applies; `centre` is the model's flag, which is what `ipcaStepSpec` follows) -/
+def expectedIpcaCall : List (String × String) :=
+  [("1", "self._components"), ("2", "self._eigenvalues"), ("3", "self.n_samples"),
+   ("m_a", "self._mean"), ("f", "forgetting_factor"), ("centre", "self.centred")]
+
+/-- `GMRFVectorModel.__init__` defaults the model's configuration space starts from -/
+def expectedGmrfDefaults : List (String × String) :=
+  [("mode", "'concatenation'"), ("n_components", "None"), ("sparse", "True"), ("bias", "0"), ("incremental", "False")]
+
 
 end MenpoModel.C11
